@@ -395,8 +395,19 @@ func (m *machine) symRead(elems []value, idx sym) value {
 			break
 		}
 	}
+	rangeCond := func(lo, hi int) *smt.Term {
+		if lo == hi {
+			return m.b.Eq(idx.t, m.b.Const(w, uint64(lo)))
+		}
+		c := m.b.Bin(smt.OpUle, idx.t, m.b.Const(w, uint64(hi)))
+		if lo > 0 {
+			c = m.b.And(m.b.Bin(smt.OpUle, m.b.Const(w, uint64(lo)), idx.t), c)
+		}
+		return c
+	}
 	if allScalar {
-		// group equal values, build an ite chain (no fork)
+		// group equal values (runs of consecutive indexes become range
+		// conditions), build an ite chain (no fork)
 		type grp struct {
 			t    *smt.Term
 			cond *smt.Term
@@ -405,10 +416,14 @@ func (m *machine) symRead(elems []value, idx sym) value {
 		k, _ := kindOfValue(elems[0])
 		var groups []*grp
 		byTerm := map[*smt.Term]*grp{}
-		for i, e := range elems {
-			t := m.term(e)
+		for i := 0; i < n; {
+			t := m.term(elems[i])
+			j := i
+			for j+1 < n && m.term(elems[j+1]) == t {
+				j++
+			}
 			g := byTerm[t]
-			c := m.b.Eq(idx.t, m.b.Const(w, uint64(i)))
+			c := rangeCond(i, j)
 			if g == nil {
 				g = &grp{t: t, cond: c}
 				byTerm[t] = g
@@ -416,7 +431,8 @@ func (m *machine) symRead(elems []value, idx sym) value {
 			} else {
 				g.cond = m.b.Or(g.cond, c)
 			}
-			g.cnt++
+			g.cnt += j - i + 1
+			i = j + 1
 		}
 		// largest group is the default
 		def := 0
@@ -436,8 +452,14 @@ func (m *machine) symRead(elems []value, idx sym) value {
 	// fork by groups of identical (comparable) values
 	var conds []*smt.Term
 	var reps []value
-	for i, e := range elems {
-		c := m.b.Eq(idx.t, m.b.Const(w, uint64(i)))
+	for i := 0; i < n; i++ {
+		e := elems[i]
+		j := i
+		for j+1 < n && sameRefOrNil(elems[j+1], e) {
+			j++
+		}
+		c := rangeCond(i, j)
+		i = j
 		found := -1
 		for j, r := range reps {
 			if sameRef(r, e) {
@@ -455,6 +477,8 @@ func (m *machine) symRead(elems []value, idx sym) value {
 	g := m.chooseAmong(DGroup, conds, "symbolic-index read")
 	return reps[g]
 }
+
+func sameRefOrNil(a, b value) bool { return sameRef(a, b) }
 
 // sameRef: cheap identity for grouping non-scalar elements (pointers, nil funcs, chans).
 func sameRef(a, b value) bool {
